@@ -17,8 +17,9 @@ Proof. vm_compute. reflexivity. Qed.
 Theorem method_table_generated : method_table = wrap_methods.
 Proof. reflexivity. Qed.
 
-(* the model of the code as it is now ([fx_now]: all four repairs present) is what the source says:
-   the order of checks in Close, SetHeader, doneErr and the server's SendMsg, read off stream.go *)
+(* the model of the code as it is now ([fx_now]: all six repairs present) is what the source says:
+   the order of checks in Close, SetHeader, doneErr, the server's SendMsg and SendHeader, and the
+   client's CloseSend / SendMsg (closed-once flag), read off stream.go *)
 Theorem fixes_generated :
   fx_now = wrap_fixes /\ wrap_close_err_first = true /\ wrap_order_problems = [].
 Proof. repeat split; reflexivity. Qed.
